@@ -322,10 +322,85 @@ def run(ctx):
                        f"field(s) {bad} not indexed by the acceptance mask of x")
 
 
+    when_rule(ctx)
+
+
+def _set_on_every_path(v):
+    """True when *v* is not the literal None (never stored) on any path."""
+    def walk(t, nonnull):
+        if t is None or t == T.NONE:
+            return False
+        if t[0] == "phi":
+            c = t[1]
+            nn_t, nn_f = set(nonnull), set(nonnull)
+            if c[0] == "is" and c[2] == T.NONE:
+                nn_f.add(c[1])
+            if c[0] == "not" and c[1][0] == "is" and c[1][2] == T.NONE:
+                nn_t.add(c[1][1])
+            return walk(t[2], nn_t) and walk(t[3], nn_f)
+        return True  # a caller-supplied value: None there fails loudly in the arithmetic, it cannot give silently wrong weights
+    return walk(v, set())
+
+
+def when_rule(ctx):
+    """C02.when: outside the sample classes, weights are computed on a set only
+    after its three log-densities have been stored, they are not overwritten
+    afterwards, and the importance sampler returns the weighted set."""
+    import ast as _ast
+    from ..evalr import Evaluator
+    from ..model import walk_no_nested
+    repo = ctx.repo
+    CW = "aspire.samples:Samples.compute_weights"
+    sites = []
+    for f in repo.all_functions():
+        if f.ident.split(":")[0].endswith(".samples"):
+            continue
+        if any(isinstance(n, _ast.Call) and isinstance(n.func, _ast.Attribute) and n.func.attr == "compute_weights" for n in walk_no_nested(f.node)):
+            sites.append(f)
+    ctx.floor("functions calling compute_weights", len(sites), 3)
+    for f in sites:
+        ev = Evaluator(repo, max_depth=2, no_inline={CW})
+        ret = T.strip_raise(ev.run(f, f.cls))
+        ctx.count("functions_folded")
+        calls = [e for e in ev.events if e.func is f and e.depth == 0 and e.callee == CW]
+        if not calls:
+            ctx.unknown("C02.when", f.ident, loc_of(f), "compute_weights call not resolved")
+            continue
+        for i, e in enumerate(calls):
+            o = e.receiver
+            sn = (e.snap or {}).get(o, {})
+            unset = [k for k in ("log_likelihood", "log_prior", "log_q") if not _set_on_every_path(sn.get(k))]
+            def final(k):
+                v = ev.heap.get((o, k))
+                for c in e.conds:  # the value at exit on the paths that made the call
+                    v = T.select(v, c[0], c[1])
+                return v
+            late = [k for k in ("log_likelihood", "log_prior", "log_q", "x") if final(k) != sn.get(k)]
+            ctx.decide(not unset and not late, "C02.when", f.ident, loc_of(f, e.node),
+                       "weights are computed after log_likelihood, log_prior and log_q of that set are stored, and none of them changes afterwards",
+                       (f"compute_weights() runs while {unset} may still be unset" if unset else f"{late} of the set are overwritten after its weights were computed (stale weights)"),
+                       disc=str(i))
+    try:
+        f = repo.func("aspire.samplers.importance:ImportanceSampler.sample")
+    except AnalysisError:
+        f = None
+    if f is not None:
+        ev = Evaluator(repo, max_depth=2, no_inline={CW})
+        ret = T.strip_raise(ev.run(f, f.cls))
+        calls = [e for e in ev.events if e.func is f and e.depth == 0 and e.callee == CW and not e.conds]
+        ctx.decide(any(e.receiver == ret for e in calls), "C02.when", f.ident, loc_of(f), "the importance sampler returns the set whose weights it computed",
+                   "the set returned by the importance sampler is not one on which compute_weights() was called unconditionally: it carries no weights / evidence / ESS", disc="returned")
+
+
 # ------------------------------------------------------------ self-validation
 _S = "src/aspire/samples.py"
 _U = "src/aspire/utils.py"
+_I = "src/aspire/samplers/importance.py"
 MUTANTS = [
+    M("importance: weights never computed", _I, "samples.compute_weights()\n", "", "C02.when"),
+    M("importance: weights before the likelihood", _I, "samples.log_likelihood = samples.array_to_namespace(\n            self.log_likelihood(samples)\n        )\n        samples.compute_weights()",
+      "samples.log_likelihood = samples.xp.zeros(len(samples.x))\n        samples.compute_weights()\n        samples.log_likelihood = samples.array_to_namespace(\n            self.log_likelihood(samples)\n        )", "C02.when"),
+    M("convert_to_samples: likelihood replaced after the weights", "src/aspire/aspire.py", "samples.compute_weights()\n        return samples", "samples.compute_weights()\n            samples.log_likelihood = samples.log_likelihood - samples.xp.max(samples.log_likelihood)\n        return samples", "C02.when"),
     M("log_w sign of prior flipped", _S, "self.log_w = self.log_likelihood + self.log_prior - self.log_q",
       "self.log_w = self.log_likelihood - self.log_prior - self.log_q", "C02.w"),
     M("log_w drops proposal", _S, "self.log_w = self.log_likelihood + self.log_prior - self.log_q",
